@@ -27,7 +27,8 @@ META = {
         "non-empty match list), config keyword dicts name real parameters."
         ' Also: definite assignment of every local in the parser package (one accepted loop-witness idiom), staged optional components are only formatted, raise sites are conditional (guards incl. early-exit clauses).'
         " Round 7: TABLE[key] with a key computed from a regex group finds a key for every enumerated member of the group's language; every consumed section/lot reference registers a number (callers index [0]); decompiled config text consists of typed settings only; re-raising the same exception type is not a new exception."
-        ' Round 8: no ordering / arithmetic on the optional numbers (twp_num / rge_num / sec_num) without a None test; reduce() / max() / min() not on a possibly empty sequence; every OCR look-alike the pattern captures is converted before an unguarded int().'),
+        ' Round 8: no ordering / arithmetic on the optional numbers (twp_num / rge_num / sec_num) without a None test; reduce() / max() / min() not on a possibly empty sequence; every OCR look-alike the pattern captures is converted before an unguarded int().'
+        ' Round 9: a recursive call changes something; float() on an acreage is guarded (the pattern accepts empty brackets); a result list filtered after the scan cannot come back empty to an unguarded [0].'),
     'assumptions': [
         "methods of str/list/dict on well-typed receivers do not raise; re does not raise on valid patterns; recursion depth",
     ],
